@@ -356,6 +356,29 @@ theorem reprocess_names_native_unit (native : U) (pe : PE) (vals : List Rat) :
     ∀ v, changeUnit (processData native pe vals) v = changeUnit { unit := native, error := vals } v :=
   ⟨rfl, rfl, rfl, rfl, fun _ => rfl⟩
 
+/-- **a refused batch leaves the object as it was**: unit and values stay together — the label
+still names the unit the kept values are in, and a following `change_unit` converts them once. -/
+theorem refused_process_keeps_unit_and_values (native : U) (pe : PE) :
+    processBatch native pe none = pe ∧
+    metricLabel "APE" (processBatch native pe none).unit = metricLabel "APE" pe.unit ∧
+    ∀ v, changeUnit (processBatch native pe none) v = changeUnit pe v :=
+  ⟨rfl, rfl, fun _ => rfl⟩
+
+/-- an accepted batch is `processData` -/
+theorem accepted_process_is_reset (native : U) (pe : PE) (vals : List Rat) :
+    processBatch native pe (some vals) = { unit := native, error := vals, piPow := 0 } := rfl
+
+/-- resetting the unit *before* the batch is checked (seeded change C12-5) breaks it: good batch,
+`change_unit(cm)`, refused batch — the object would report metres over centimetre values, and
+converting "to centimetres" would scale a second time -/
+theorem early_reset_counterexample :
+    let pe1 : PE := { unit := .centimeters, error := [100] }      -- 1 m after change_unit(cm)
+    let early : PE := { pe1 with unit := .meters }                -- unit reset, then the batch is refused
+    processBatch .meters pe1 none = pe1 ∧
+    metricLabel "APE" early.unit = "APE (m)" ∧ early.error = [100] ∧
+    changeUnit early .centimeters = some { unit := .centimeters, error := [10000] } := by
+  decide +kernel
+
 /-- **the pinned code (before fix 46322c3)**: `process_data; change_unit(mm); process_data;
 get_result` — the second evaluation's values are the fresh ones, in metres, but the object still
 said millimetres, so the label read "APE (mm)" over metre values (and a later `change_unit(m)`
